@@ -350,9 +350,17 @@ class Gef:
         out = set()
         for s, d in b.switch_discr.items():
             t = b.mir['blocks'][s]['term']
-            if any(s2 not in cfg.can_return for s2 in cfg.succ[s]):
-                continue        # assertion
+            live = {s2 for s2 in cfg.succ[s] if s2 in cfg.can_return}
+            if len(live) < len(set(cfg.succ[s])):
+                # a side that cannot return: an assertion - unless it is only the `otherwise -> unreachable` of an exhaustive
+                # `match` over an enum, whose arms are decisions like any other
+                dead = set(cfg.succ[s]) - live
+                exhaustive = t.get('k') == 'switch' and dead == {t.get('otherwise')} and len(live) >= 2 and b.mir['blocks'][t['otherwise']]['term'].get('k') == 'unreachable'
+                if not exhaustive:
+                    continue
             for succ in cfg.succ[s]:
+                if succ not in live:
+                    continue
                 if cfg.pred[succ] != [s] or not cfg.dominates(succ, block):
                     continue
                 if self.inline and self.is_loop_exit(s, succ, block):
@@ -371,7 +379,11 @@ class Gef:
                 else:
                     # multi-way switch: record the value
                     vals = [tv for tv, tb in t['targets'] if tb == succ]
-                    out.add((self.term(d), 'v%s' % (vals[0] if vals else 'other')))
+                    sd = strip(d)
+                    if sd is not None and sd.kind == 'discr' and vals and vals[0] in (0, 1) and self.two_unit_enum(strip(sd.args[0]).ty if strip(sd.args[0]) is not None else ''):
+                        out.add((self.term(d), vals[0] == 1))      # the arm of a two-variant enum: the same test as `== Variant`
+                    else:
+                        out.add((self.term(d), 'v%s' % (vals[0] if vals else 'other')))
         return tuple(sorted(out, key=str))
 
     # ---- rendering of one event (under the current choice of merge operands) ---------------------------------
